@@ -4,6 +4,7 @@ package main
 
 import (
 	"fmt"
+	"go/types"
 	"strings"
 
 	"golang.org/x/tools/go/ssa"
@@ -12,15 +13,18 @@ import (
 func init() { register("C06", true, checkC06) }
 
 func checkC06(c *Ctx) {
+	e1CheckConstants(c, "C06-K4", []string{"dhcpv6.", "dhcpv4.", "iana."}, 400)
 	r := c.R
 	r.Decides = append(r.Decides,
 		"K1 every decoder slot lands in a field the encoder writes back from, with the same width and an inverse transform (shared with C01-K1/C02-K2: wire-schema symmetry), except the allowed normalisations",
 		"K2 every decode transform is injective on the wire domain or range-guarded: net.CIDRMask(x, bits) applied to a wire value is dominated by x <= bits (else the decoder returns an error); contradiction rule across siblings (dhcpv4 Route guards its mask length)",
 		"K3 label sets keep and re-emit their original bytes while unmodified (shared with C19-K1)",
-		"K4 the DHCPv4 option encoder emits at least one instance for every stored code other than Pad/End, also for empty and nil values (a decoded zero-length option survives re-encoding)")
+		"K4 the DHCPv4 option encoder emits at least one instance for every stored code other than Pad/End, also for empty and nil values (a decoded zero-length option survives re-encoding)",
+		"K5 length-field narrowing: every uint16(len(x))/uint8(len(x)) written as a length is the length of raw field bytes or of a nested encoding whose encoder closure does not pad (an expanding nested encoder overflows the field for large accepted datagrams)")
 	r.NotDecided = append(r.NotDecided, "the fixpoint itself for all accepted inputs (equality of runtime values); only slot/field/transform agreement and guardedness are structural")
 	c06CIDR(c)
 	c06Schema(c)
+	c06Narrowing(c)
 }
 
 // c06CIDR: K2
@@ -77,4 +81,132 @@ func c06CIDR(c *Ctx) {
 	r.Count("C06-K2-CIDRMask-sites", n)
 	r.Expect("C06-K2-CIDRMask-sites", 4)
 	_ = strings.Contains
+}
+
+// c06Narrowing: K5 — a length written into a 16-bit (8-bit) length field is the length of bytes that
+// cannot be longer than their wire form. For a decoded value every raw field was read from a datagram of
+// at most 65535 bytes (and every 8-bit-counted field from an 8-bit count), so len(field) fits; a length of
+// a NESTED ENCODING fits only if that encoding cannot be longer than what was decoded. An encoder that
+// pads (bytes.Repeat) or re-splits (the DHCPv4 option splitter) is expanding: its output can exceed the
+// decoded input, the narrowing conversion truncates the length and the bytes no longer decode.
+func c06Narrowing(c *Ctx) {
+	r, sx := c.R, c.Sx()
+	var roots []*ssa.Function
+	for _, f := range c.P.ModuleFuncs() {
+		if f.Parent() != nil || f.Signature.Recv() == nil || (f.Name() != "ToBytes" && f.Name() != "Marshal") {
+			continue
+		}
+		if pp := pkgPathOf(f); pp == modPath+"/dhcpv6" || pp == modPath+"/dhcpv4" {
+			roots = append(roots, f)
+		}
+	}
+	// expanding(f, excl): f's call closure, not entered through excl (the function holding the length
+	// field: recursion through it is judged at its own site), contains a padding call
+	expanding := func(f, excl *ssa.Function) string {
+		res := ""
+		seen := map[*ssa.Function]bool{excl: true}
+		work := []*ssa.Function{f}
+		var clo []*ssa.Function
+		for len(work) > 0 {
+			g := work[len(work)-1]
+			work = work[:len(work)-1]
+			if g == nil || seen[g] || g.Blocks == nil || !(inModule(g) || isModuleWrapper(g)) {
+				continue
+			}
+			seen[g] = true
+			clo = append(clo, g)
+			allInstrs(g, func(in ssa.Instruction) {
+				if ci, ok := in.(ssa.CallInstruction); ok {
+					work = append(work, c.P.Callees(ci)...)
+				}
+			})
+		}
+		sortFuncs(clo)
+		for _, g := range clo {
+			allInstrs(g, func(in ssa.Instruction) {
+				if cl, ok := in.(*ssa.Call); ok && res == "" && isFuncCall(cl.Common(), "bytes", "Repeat") {
+					res = shortName(g) + " pads its output (bytes.Repeat at " + c.P.ipos(cl) + ")"
+				}
+			})
+		}
+		return res
+	}
+	n := 0
+	for _, f := range closureOf(c.P, roots) {
+		if inUio(f) || !inModule(f) {
+			continue
+		}
+		ord := map[string]int{}
+		allInstrs(f, func(in ssa.Instruction) {
+			cl, ok := in.(*ssa.Call)
+			if !ok || cl.Call.StaticCallee() == nil {
+				return
+			}
+			fk := funcKey(cl.Call.StaticCallee())
+			bits := 0
+			switch {
+			case strings.HasSuffix(fk, "uio.Lexer).Write16"):
+				bits = 16
+			case strings.HasSuffix(fk, "uio.Lexer).Write8"):
+				bits = 8
+			default:
+				return
+			}
+			cv, ok := cl.Call.Args[1].(*ssa.Convert)
+			if !ok {
+				return
+			}
+			ln, ok := cv.X.(*ssa.Call)
+			if !ok || !isBuiltinCall(ln.Common(), "len") {
+				return
+			}
+			n++
+			x := ln.Call.Args[0]
+			base := fmt.Sprintf("%s: %d-bit length of %s", shortName(f), bits, shortDesc(x, 3))
+			ord[base]++
+			key := base
+			if ord[base] > 1 {
+				key = fmt.Sprintf("%s #%d", base, ord[base])
+			}
+			// nested encoding?
+			var enc ssa.CallInstruction
+			if xc, ok := x.(*ssa.Call); ok {
+				name := ""
+				if xc.Call.IsInvoke() {
+					name = xc.Call.Method.Name()
+				} else if sf := xc.Call.StaticCallee(); sf != nil {
+					name = sf.Name()
+				}
+				if name == "ToBytes" || name == "Marshal" {
+					enc = xc
+				}
+			}
+			if enc != nil {
+				what := "nested " + enc.Common().Value.Type().String() + " encoding"
+				if enc.Common().IsInvoke() {
+					what = "nested " + types.TypeString(enc.Common().Value.Type(), func(p *types.Package) string { return p.Name() }) + "." + enc.Common().Method.Name() + "() encoding"
+				} else if sf := enc.Common().StaticCallee(); sf != nil {
+					what = "nested " + shortName(sf) + "() encoding"
+				}
+				key = fmt.Sprintf("%s: %d-bit length of a %s", shortName(f), bits, what)
+				ord[key]++
+				if ord[key] > 1 {
+					key = fmt.Sprintf("%s #%d", key, ord[key])
+				}
+			}
+			if enc == nil {
+				r.OK("C06-K5", key, c.P.ipos(cl), "raw field bytes: a decoded field is never longer than the datagram it was read from", sx.Of(x).String())
+				return
+			}
+			for _, cal := range c.P.Callees(enc) {
+				if why := expanding(cal, f); why != "" {
+					r.Violation("C06-K5", key, c.P.ipos(cl), fmt.Sprintf("the nested encoding can be longer than its wire form (%s reached through %s): for a large accepted datagram the %d-bit length is truncated by the narrowing conversion and the re-encoded bytes no longer decode", why, shortName(cal), bits))
+					return
+				}
+			}
+			r.OK("C06-K5", key, c.P.ipos(cl), "nested encoders are length-preserving (no padding in their closure)", "")
+		})
+	}
+	r.Count("C06-K5-length-fields", n)
+	r.Expect("C06-K5-length-fields", 6)
 }
